@@ -1,7 +1,12 @@
 ------------------------------ MODULE IngressMC ------------------------------
 (* C16: exhaustive design check and case generator for the ingress part of OtlpHop.
    Requests: every content coding the client can apply (+ none, + a coding outside the supported
-   set) x every enabled-decoder list of the family x every size class x wire class.
+   set) x every enabled-decoder list of the family x every size class x wire class x framing
+   {"length": the request declares Content-Length; "chunked": the length is unknown to the server
+   (Transfer-Encoding: chunked, r.ContentLength = -1) -- only a hand-made client sends that, the
+   collector's own client always declares the length}.  An empty body cannot be sent chunked
+   (net/http sends Content-Length: 0 for it).  The limit clauses quantify over the framing: nothing in
+   the machine may depend on the declared length.
    Model sizes are small integers around the model limit Max; the clauses only compare n, w with
    max, so the result carries over to real byte counts (the monitor evaluates the same clauses on
    the real counts). *)
@@ -34,10 +39,11 @@ WireClasses(enc, s) == IF Plain(enc) THEN { IF SizeN(s) > Max THEN "gt" ELSE "le
 
 IngressRequests ==
     { [ transport |-> "http", via |-> "raw", handler |-> "probe", auth |-> "off", recv |-> "off",
-        enc |-> e, enabled |-> en, size |-> s, wire |-> wc,
-        n |-> SizeN(s), w |-> WireN(e, s, wc), max |-> Max ]
-      : e \in Encs, en \in EnabledLists, s \in SizeTags, wc \in {"le", "gt"} }
-MCRequests == { r \in IngressRequests : r.wire \in WireClasses(r.enc, r.size) }
+        enc |-> e, enabled |-> en, size |-> s, wire |-> wf[1], framing |-> wf[2],
+        n |-> SizeN(s), w |-> WireN(e, s, wf[1]), max |-> Max ]
+      : e \in Encs, en \in EnabledLists, s \in SizeTags, wf \in {"le", "gt"} \X {"length", "chunked"} }
+MCRequests == { r \in IngressRequests : /\ r.wire \in WireClasses(r.enc, r.size)
+                                        /\ r.framing = "chunked" => r.size # "empty" }
 
 (* ---- design invariants: every clause of the statement on every finished request ---------- *)
 InvRoundTrip            == Done => RoundTrip(req, IngressObsOf)
@@ -49,7 +55,7 @@ InvNeverWrongBytes      == Done => NeverWrongBytes(req, IngressObsOf)
 InvLimitAlways          == pc = "handler" => body.n <= req.max
 
 (* ---- generator: one line per finished request with the observation the machine specifies --- *)
-Case == [ enc |-> req.enc, enabled |-> req.enabled, size |-> req.size, wire |-> req.wire,
+Case == [ enc |-> req.enc, enabled |-> req.enabled, size |-> req.size, wire |-> req.wire, framing |-> req.framing,
           ran |-> srv.ran, status |-> IF resp.kind = "http" THEN resp.status ELSE 0,
           class |-> ReadClass(req, IngressObsOf),
           atmax |-> srv.ran /\ srv.nread = req.max,
